@@ -144,6 +144,10 @@ func fileContent(format, what string) []byte {
 		return corpus(format, "medium")[0]
 	case "large":
 		return corpus(format, "large")[0]
+	case "longline":
+		return corpus(format, "longline")[0]
+	case "huge", "multimember": // ~300 KiB: many OS-level reads and several gzip blocks
+		return bytes.Repeat(corpus(format, "large")[0], 32)
 	case "error":
 		bad := map[string]string{"fasta": "", "fastq": "@a\nA\n+\nI\n@b\nAC\n+\nI\n", "sam": "q\t0\tr\t1\t9\t1M\t*\t0\t0\tA\tI\nq\tx\n", "samh": "@h\nq\t1\n",
 			"bed": "a\t0\t1\nb\tx\t2\n", "newick": "(a,b);(c"}[format]
@@ -153,7 +157,7 @@ func fileContent(format, what string) []byte {
 }
 
 func runC06(r *core.Run) {
-	L := core.Pick(r, 5, 6)
+	L := core.Pick(r, 5, 7)
 	r.Bound("all-schedules", fmt.Sprintf("every input over each format's token alphabet of length 0..%d plus the 12+ well-formed small corpus files in their LF and CRLF forms (up to 18 bytes) x EVERY partition of the stream into successive Read results x {EOF alone, EOF together with the last bytes}", L))
 	r.Assume("the controlled reader never returns (0, nil); error texts are not compared, only positions")
 	core.Clause(r, "all-inputs-all-schedules", core.Opts{Rule: "engine E1: for each input every delivery schedule is executed against the real decoder and compared with the one-piece reference decode; evaluations counts executions; non-trivial = input of at least 2 bytes"},
@@ -180,7 +184,7 @@ func runC06(r *core.Run) {
 		}, func(c c06Case) core.Outcome { return checkC06(r, c) })
 
 	bound := core.Pick(r, 2, 3)
-	r.Bound("long-files", fmt.Sprintf("every medium (40-200 byte) corpus file (LF form, and CRLF form with <= 2 deviations over all sizes) with <= %d deviations (short reads of every size / EOF with data, at any Read); the small SAM alignment files with <= 3; the ~9 KiB file of every format with <= %d deviations over the size menu {1,2,3,half,max-1}", bound+1, bound))
+	r.Bound("long-files", fmt.Sprintf("every medium (40-200 byte) corpus file (LF form, and CRLF form with <= 2 deviations over all sizes) with <= %d deviations (short reads of every size / EOF with data, at any Read); the small SAM alignment files with <= 3; the ~9 KiB file and the long-line file (a line of 5000+ bytes, LF and CRLF) of every format with <= %d deviations over the size menu {1,2,3,half,max-1}", bound+1, bound))
 	core.Clause(r, "long-files-bounded", core.Opts{Rule: "deviation-bounded exploration (iterated: 0, 1, .. bound deviations) of the Read schedule of longer well-formed files; non-trivial = all"},
 		func(emit func(c06Case) bool) {
 			for _, f := range formats {
@@ -202,13 +206,16 @@ func runC06(r *core.Run) {
 					emit(c06Case{Format: f.Name, Corpus: fmt.Sprint("medium/", i), AllSizes: false, Bound: bound + 1})
 				}
 				emit(c06Case{Format: f.Name, Corpus: "large/0", AllSizes: false, Bound: bound})
+				emit(c06Case{Format: f.Name, Corpus: "longline/0", AllSizes: false, Bound: bound})
+				ll := corpus(f.Name, "longline")[0]
+				emit(c06Case{Format: f.Name, Input: core.S(bytes.ReplaceAll(ll, []byte("\n"), []byte("\r\n"))), AllSizes: false, Bound: bound})
 			}
 		}, func(c c06Case) core.Outcome { return checkC06(r, c) })
 
 	core.Clause(r, "crlf", core.Opts{Rule: "every well-formed corpus file (all sizes; fields free of CR) rewritten LF -> CRLF decodes to the same records; non-trivial = all"},
 		func(emit func(c06CRLF) bool) {
 			for _, f := range formats {
-				for _, size := range []string{"small", "medium", "large"} {
+				for _, size := range []string{"small", "medium", "large", "longline"} {
 					for i := range corpus(f.Name, size) {
 						emit(c06CRLF{f.Name, size, i})
 					}
@@ -241,14 +248,15 @@ func runC06(r *core.Run) {
 	scratch := filepath.Join(r.Root, ".scratch", fmt.Sprintf("c06-%d", os.Getpid()))
 	os.MkdirAll(scratch, 0o755)
 	defer os.RemoveAll(scratch)
-	core.Clause(r, "file-grid", core.Opts{Rule: "every format (SAM: File and FileHeader) x {plain, .gz written with compress/gzip} x content {empty file, one record, many records, a file whose decode ends in an error item, the 9 KiB file}: File(path) yields what Reader yields on the bytes; a missing path yields exactly one item, an error; non-trivial = all"},
+	core.Clause(r, "file-grid", core.Opts{Rule: "every format (SAM: File and FileHeader) x {plain, .gz written with compress/gzip} x content {empty file, one record, many records, a file whose decode ends in an error item, the 9 KiB file, the long-line file, a ~300 KiB file} plus a multi-member .gz: File(path) yields what Reader yields on the bytes; a missing path yields exactly one item, an error; non-trivial = all"},
 		func(emit func(c06File) bool) {
 			for _, f := range formats {
-				for _, what := range []string{"empty", "one", "many", "error", "large", "missing"} {
+				for _, what := range []string{"empty", "one", "many", "error", "large", "longline", "huge", "missing"} {
 					for _, gz := range []bool{false, true} {
 						emit(c06File{f.Name, what, gz})
 					}
 				}
+				emit(c06File{f.Name, "multimember", true})
 			}
 		},
 		func(c c06File) core.Outcome {
@@ -271,7 +279,16 @@ func runC06(r *core.Run) {
 			}
 			data := fileContent(c.Format, c.What)
 			var disk []byte
-			if c.Gz {
+			if c.Gz && c.What == "multimember" {
+				// a gzip file made of several members (what `cat a.gz b.gz` or bgzip produce)
+				var zb bytes.Buffer
+				for off := 0; off < len(data); off += 70001 {
+					zw := gzip.NewWriter(&zb)
+					zw.Write(data[off:min(off+70001, len(data))])
+					zw.Close()
+				}
+				disk = zb.Bytes()
+			} else if c.Gz {
 				var zb bytes.Buffer
 				zw := gzip.NewWriter(&zb)
 				zw.Write(data)
